@@ -79,6 +79,26 @@ func (c19) Generate(r *engine.Rand, index int, tier string) *engine.Scenario {
 		sc.Cycles = at + (max+2)*4096
 		return sc
 	}
+	if index%16 == 11 {
+		// directed: channel 1 with its sweep unit adding, started within two cycles of a frame-sequencer
+		// step (every kind of step comes up) at a frequency that overflows at one of the next sweep
+		// clocks, then left alone: the status bit drops at the sweep clock of the overflow
+		sc.Class = "sweep-on-step"
+		at := uint64(r.Range(10, 3000))
+		add := func(a uint16, v uint8) {
+			sc.Events = append(sc.Events, engine.Event{At: at, K: "bus_w", A: a, V: v})
+			at += uint64(r.Range(1, 30))
+		}
+		period, shift := r.Range(1, 7), r.Range(1, 3)
+		f := r.Range(0x300, 0x7ff)
+		add(0xff12, 0xf0)
+		add(0xff10, uint8(period<<4|shift))
+		add(0xff13, uint8(f))
+		at = (at/2048+uint64(r.Range(1, 17)))*2048 + 2046 + uint64(r.Range(0, 4))
+		add(0xff14, 0x80|uint8(f>>8))
+		sc.Cycles = at + uint64(period)*8192*uint64(r.Range(2, 5))
+		return sc
+	}
 	long := index%8 == 7
 	sc.Class = "short"
 	span := uint64(r.Range(8000, 70000))
